@@ -606,6 +606,15 @@ func (w *watch) update(dirErrors map[string]error, removed ...string) bool {
 		return true
 	}
 
+	// Mark removed directories first: one that has been recreated in the
+	// meantime gets watched again right below, otherwise changes to it
+	// (and its next removal) would go unnoticed.
+	for _, dir = range removed {
+		w.tracked[dir] = false
+		dirErrors[dir] = errors.New("directory removed")
+		update = true
+	}
+
 	for dir, ok = range w.tracked {
 		if ok {
 			continue
@@ -620,12 +629,6 @@ func (w *watch) update(dirErrors map[string]error, removed ...string) bool {
 			w.tracked[dir] = false
 			dirErrors[dir] = fmt.Errorf("failed to monitor for changes: %w", err)
 		}
-	}
-
-	for _, dir = range removed {
-		w.tracked[dir] = false
-		dirErrors[dir] = errors.New("directory removed")
-		update = true
 	}
 
 	return update
